@@ -74,7 +74,7 @@ def query(tag):
         n = (os.getpid() % 100000) * 10000 + _qid[0]
     req = b"\x1b_VFID%d\x1b\\" % n
     t0 = time.monotonic_ns()
-    resp = utils.query_terminal(req, lambda s: not s.endswith(b"\x1b\\"), 1.0)
+    resp = utils.query_terminal(req, lambda s: not s.endswith(b"\x1b\\"), 3.0)
     t1 = time.monotonic_ns()
     rec = ["Q", os.getpid(), threading.get_ident(), tag, n, (resp or b"").decode("latin-1"), t0, t1]
     with _log_lock:
@@ -82,13 +82,55 @@ def query(tag):
             f.write(json.dumps(rec) + "\n")
 
 
-def hammer(tag, n, seed, queries=True):
+def compound(tag):
+    """A compound query helper of the library (query + drain of the rest of the reply):
+    it must report what the terminal said, whoever else is using the terminal."""
+    from term_image import utils
+
+    import term_image
+
+    # generous: the scripted terminal is a thread of a very busy process; a late reply must
+    # not look like a lost one
+    term_image.set_query_timeout(3.0)
+    fn = utils.get_terminal_name_version
+    fn._invalidate_cache()  # documented attribute of @cached wrappers
+    t0 = time.monotonic_ns()
+    got = fn()
+    t1 = time.monotonic_ns()
+    with _log_lock:
+        with open(_log_path(), "a") as f:
+            f.write(json.dumps(["C", os.getpid(), threading.get_ident(), tag, list(got), t0, t1]) + "\n")
+
+
+def bystander(tag):
+    """Nobody types anything in these runs: a direct read of all available input must
+    return nothing -- any byte is (part of) a reply addressed to another caller."""
+    from term_image import utils
+
+    t0 = time.monotonic_ns()
+    got = utils.read_tty_all()
+    t1 = time.monotonic_ns()
+    if got:
+        with _log_lock:
+            with open(_log_path(), "a") as f:
+                f.write(json.dumps(["B", os.getpid(), threading.get_ident(), tag, got.decode("latin-1"), t0, t1]) + "\n")
+    else:
+        with _log_lock:
+            with open(_log_path(), "a") as f:
+                f.write(json.dumps(["b", os.getpid()]) + "\n")
+
+
+def hammer(tag, n, seed, queries=True, compound_ok=True):
     rnd = random.Random(seed)
     probe = get_probe()
     for i in range(n):
         r = rnd.random()
-        if queries and r < 0.25:
+        if queries and r < 0.2:
             query(tag)
+        elif queries and compound_ok and r < 0.3:
+            compound(tag)
+        elif queries and r < 0.42:
+            bystander(tag)
         else:
             probe(tag, rnd.choice([0, 0, 1, 2]), rnd.choice([0, 0.0002, 0.001]))
         if rnd.random() < 0.3:
@@ -125,7 +167,12 @@ def child_main(cfg, tag, seed, level):
 
     if cfg.get("delays"):
         install_delays(seed)
-    ths = [threading.Thread(target=hammer, args=("%s.t%d" % (tag, i), cfg["ops"], seed * 31 + i)) for i in range(cfg["child_threads"])]
+    # A fork()ed child inherits the (thread-level) lock of every @cached wrapper in whatever
+    # state it had in the parent at that instant -- possibly held by a thread that does not
+    # exist in the child.  That is the generic fork-with-threads hazard, not terminal
+    # serialization: fork children therefore do not call the memoized query helpers.
+    compound_ok = cfg["method"] != "fork"
+    ths = [threading.Thread(target=hammer, args=("%s.t%d" % (tag, i), cfg["ops"], seed * 31 + i, True, compound_ok)) for i in range(cfg["child_threads"])]
     for t in ths:
         t.start()
     procs = []
@@ -135,7 +182,7 @@ def child_main(cfg, tag, seed, level):
             p = mp.Process(target=child_main, args=(cfg, "%s.g%d" % (tag, j), seed * 7 + j, level + 1))
             p.start()
             procs.append(p)
-    hammer(tag, cfg["ops"], seed)
+    hammer(tag, cfg["ops"], seed, True, compound_ok)
     for t in ths:
         t.join()
     for p in procs:
